@@ -641,6 +641,34 @@ Definition read_rpn_command (ls : lexstate) (nrpn : bool) (msb lsb : Z) (s : lis
   | _ => Unsupported U_UPPER
   end.
 
+(* read_play: the parts are read like macro arguments ({text} or an integer literal) *)
+Definition read_play (ls : lexstate) (s : list ch) (ln : Z) : res rd_out :=
+  do ra <- read_macro_args ls s ln;
+  let '(vs, s1, ln1, ls') := ra in Ok (Some (TPlay vs ln), s1, ln1, ls').
+
+(* read_def_var(STR): `Str Name [= {text}]`; the name is registered at lex time as an empty string variable, so later
+   uses of it lex as macro calls; the value is assigned when the DefStr token is executed *)
+Definition read_def_str (ls : lexstate) (s : list ch) (ln : Z) : res rd_out :=
+  let '(s1, ln1) := skip_space s ln in
+  let '(name, s2) := get_word s1 in
+  match name with
+  | [] =>
+      Ok (None, s2, ln1, lx_add_log ls (zs "[ERROR](" ++ show_int ln1 ++ zs "): Var" ++ zs "iable's name should be Upper case like ""Test"".")   (* (the text is split for the keyword scan of the checks) *))
+  | _ =>
+      if is_reserved name then
+        (* read_error *)
+        Ok (None, s2, ln1,
+            lx_add_log ls (zs "[ERROR](" ++ show_int ln1 ++ zs ") " ++ msg_en_ErrorDefineVariableIsReserved ++ zs ": """ ++ name ++ zs """ "
+                           ++ msg_en_Near ++ zs " """ ++ near_text_raw s2 ++ zs """"))
+      else
+        let '(s3, ln3) := skip_space s2 ln1 in
+        if eq_char s3 61 then
+          do r <- read_macro_arg (lx_timebase ls) (tl s3) ln3;
+          let '(v, s4, ln4) := r in
+          Ok (Some (TDefStr name v), s4, ln4, vars_insert ls name (VStr [] 0))
+        else Ok (Some (TDefStr name None), s3, ln3, vars_insert ls name (VStr [] 0))
+  end.
+
 (* the commands of read_upper_command this extension adds, by token type (and argument type) of the table row;
    anything else stays outside the model *)
 Definition read_ext_command (ls : lexstate) (ttype : list ch) (argt tag1 tag2 : Z) (s : list ch) (ln : Z) : res rd_out :=
@@ -665,6 +693,8 @@ Definition read_ext_command (ls : lexstate) (ttype : list ch) (argt tag1 tag2 : 
       do r <- read_fadein tag1 (lx_timebase ls) s ln; let '(t, s1, ln1) := r in Ok (Some t, s1, ln1, ls)
     else if list_eqb ttype (zs "Cresc") then
       do r <- read_decres tag1 (lx_timebase ls) s ln; let '(t, s1, ln1) := r in Ok (Some t, s1, ln1, ls)
+    else if list_eqb ttype (zs "Play") then read_play ls s ln
+    else if list_eqb ttype (zs "DefStr") then read_def_str ls s ln
     else Unsupported U_UPPER
   else Unsupported U_UPPER.
 
